@@ -535,6 +535,18 @@ pub fn c07_scenarios(ns: &[u64], thorough: bool) -> Vec<Scn> {
         s.post = Post::Drain;
         out.push(s);
     }
+    {
+        // the end must reach a parked stream that went through into_single/into_multi
+        let cfg = qf(Flavour::B, 1, (0, 0));
+        let mut s = Scn::new("c07-parked-stream-after-single-multi-roundtrip", cfg);
+        s.prefix = vec![op(IntoSingle, R0), op(IntoMulti, R0)];
+        s.threads = vec![
+            vec![opv(TrySend, S0, 1), op(DropH, S0)],
+            vec![op(StreamAll, R0)],
+        ];
+        s.post = Post::Drain;
+        out.push(s);
+    }
     // futures: poll vs last send + drop
     for &n in ns {
         let cfg = qf(Flavour::B, n, (0, 0));
@@ -764,6 +776,18 @@ pub fn c11_scenarios(ns: &[u64], fut: bool) -> Vec<Scn> {
                 vec![op(leave, R2)],
                 vec![opv(TrySend, S0, 1)],
                 vec![op(TryRecv, R1), op(TryRecv, R0)],
+            ];
+            out.push(s);
+        }
+        // the last handle of one stream leaves while another stream is being added
+        for leave in [DropH, Unsub] {
+            let mut s = Scn::new(&name("c11-stream-leaves-vs-addstream", &format!("{:?}", leave)), cfg);
+            s.prefix = vec![opd(AddStream, R0, R1)];
+            s.prefix.extend(prep(St::One, n, &[]));
+            s.threads = vec![
+                vec![op(leave, R1)],
+                vec![opd(AddStream, R0, R2), op(TryRecv, R0)],
+                vec![opv(TrySend, S0, 1), opv(TrySend, S0, 2)],
             ];
             out.push(s);
         }
@@ -1040,6 +1064,31 @@ pub fn c14_scenarios(ns: &[u64], spins: &[(usize, usize)]) -> Vec<Scn> {
                 vec![op(StreamAll, R0)],
             ];
             out.push(s);
+            // a stream task on one handle of a shared stream; the sender and the
+            // sibling consumer (direct try_recv) act from one thread
+            let mut s = Scn::new("c14-stream-task-vs-sender-and-sibling", cfg);
+            s.prefix = vec![opd(CloneH, R0, R1)];
+            s.threads = vec![
+                vec![op(StreamNext, R0)],
+                vec![opv(SinkSend, S0, 1), op(TryRecv, R1), opv(SinkSend, S0, 2)],
+            ];
+            out.push(s);
+            // a receiver that went through into_single(op) and back
+            let mut s = Scn::new("c14-stream-after-single-multi-roundtrip", cfg);
+            s.prefix = vec![op(IntoSingle, R0), op(IntoMulti, R0)];
+            s.threads = vec![
+                vec![opv(SinkSend, S0, 1), opv(SinkSend, S0, 2), op(DropH, S0)],
+                vec![op(StreamAll, R0)],
+            ];
+            out.push(s);
+            // ... and through transform_operation
+            let mut s = Scn::new("c14-stream-after-transform", cfg);
+            s.prefix = vec![op(IntoSingle, R0), op(Transform, R0)];
+            s.threads = vec![
+                vec![opv(SinkSend, S0, 1), opv(SinkSend, S0, 2), op(DropH, S0)],
+                vec![op(StreamAll, R0)],
+            ];
+            out.push(s);
             // single-consumer futures receiver
             let mut s = Scn::new("c14-sink-uni-stream", cfg);
             s.prefix = vec![op(IntoSingle, R0)];
@@ -1110,6 +1159,55 @@ pub fn c16_scenarios(ns: &[u64]) -> Vec<Scn> {
             vec![op(DropH, R1)],
             vec![op(DropH, R2)],
             vec![opv(TrySend, S0, 1)],
+        ];
+        out.push(s);
+    }
+    // a handle leaves (its token must stay registered until it is done with the
+    // stream list) while another handle alone retires that list and drives a
+    // whole reclamation cycle to completion
+    for j in [0usize, 2] {
+        let cfg = q(Flavour::B, 1, WaitK::Busy);
+        let mut s = Scn::new(&name("c16-leaver-vs-full-cycle", &format!("plus{}", j)), cfg);
+        s.prefix = vec![opd(AddStream, R0, R1)];
+        for _ in 0..j {
+            s.prefix.push(opd(CloneH, R0, R4));
+            s.prefix.push(op(DropH, R4));
+        }
+        let mut a = vec![opd(AddStream, R0, R2)];
+        for _ in 0..5 {
+            a.push(opd(AddStream, R0, R4));
+            a.push(op(DropH, R4));
+        }
+        a.extend([op(TryRecv, R0), opv(TrySend, S0, 1), op(TryRecv, R2), op(DropH, R2)]);
+        s.threads = vec![vec![op(DropH, R1)], a];
+        s.horizon = 60_000;
+        out.push(s);
+    }
+    // a cycle is open because of an idle straggler; more retirements arrive (the
+    // count is swept across the threshold); the straggler leaves while a writer
+    // that already announced the new epoch is in the middle of a list scan
+    for j in [0usize, 1, 2] {
+        let cfg = q(Flavour::B, 1, WaitK::Busy);
+        let mut s = Scn::new(&name("c16-open-cycle-straggler-leaves-vs-scan", &format!("plus{}", j)), cfg);
+        s.prefix = vec![opv(TrySend, S0, 100), opd(CloneH, S0, S1)];
+        s.prefix.push(opd(AddStream, R0, 8)); // an idle stream: the list has two entries
+        for _ in 0..6 {
+            s.prefix.push(opd(AddStream, R0, R4));
+            s.prefix.push(op(DropH, R4));
+        }
+        s.prefix.push(op(TryRecv, R0));
+        s.prefix.push(opv(TrySend, S0, 101));
+        for _ in 0..4 {
+            s.prefix.push(opd(AddStream, R0, R4));
+            s.prefix.push(op(DropH, R4));
+        }
+        for _ in 0..j {
+            s.prefix.push(opd(CloneH, R0, R4));
+            s.prefix.push(op(DropH, R4));
+        }
+        s.threads = vec![
+            vec![opv(TrySend, S0, 1)],
+            vec![opd(AddStream, R0, R2), op(DropH, S1)],
         ];
         out.push(s);
     }
@@ -1223,6 +1321,31 @@ pub fn c18_scenarios(ns: &[u64]) -> Vec<Scn> {
             }
         }
     }
+    // a reclamation epoch is pending (the try operation has to announce it) while
+    // other threads are frozen anywhere inside handle clone / add_stream / drop
+    for w in [WaitK::Busy, WaitK::Yield(0, 0)] {
+        let cfg = q(Flavour::B, 2, w);
+        for probe in [TrySend, TryRecv] {
+            let mut s = Scn::new(&name("c18-solo-vs-handle-churn-epoch-pending", &format!("{:?}", probe)), cfg);
+            s.prefix = vec![opd(CloneH, S0, S1), opd(CloneH, R0, R1), opd(CloneH, S0, S2), opd(CloneH, R0, R2)];
+            for _ in 0..6 {
+                s.prefix.push(opd(AddStream, R0, R4));
+                s.prefix.push(op(DropH, R4));
+            }
+            let mut threads = vec![
+                vec![opd(CloneH, S1, 8), op(DropH, 8)],
+                vec![opd(AddStream, R1, 9), op(DropH, 9)],
+            ];
+            if probe == TrySend {
+                threads.push(vec![opv(TrySend, S2, 21)]);
+            } else {
+                threads.push(vec![op(TryRecv, R2)]);
+            }
+            s.solo = Some(2);
+            s.threads = threads;
+            out.push(s);
+        }
+    }
     // consumers of a shared stream frozen anywhere (also between pin and unpin)
     // while a sender with a sibling tries to send / a third consumer to receive
     for &n in ns {
@@ -1274,10 +1397,15 @@ const PAIR_STATES_T: [St; 7] = [
 fn policy(s: &Scn, thorough: bool) -> (u32, usize) {
     let nt = s.threads.len();
     let long = s.cfg.fut; // futures executions are 2-3x longer
+    if !thorough && (s.prefix.len() > 30 || s.hang_prop == "C16") {
+        // long set-up prefixes (reclamation scenarios) are replayed in every
+        // execution: keep their quick bound low
+        return (2, if nt >= 3 { 4 } else { 2 });
+    }
     if !thorough {
         match (nt, long) {
-            (0..=2, false) => (3, 1),
-            (0..=2, true) => (2, 1),
+            (0..=2, false) => (3, 2),
+            (0..=2, true) => (2, 2),
             (3, false) => (2, 2),
             (4, false) if s.threads.iter().all(|t| t.len() == 1) => (2, 4),
             (3, true) => {
@@ -1374,6 +1502,14 @@ pub fn tasks(prop: &str, tier: Tier) -> Vec<Task> {
                 }
             } else {
                 push_all(&mut t, c08_scenarios(ns_q, &wq), false);
+                // 130 scenarios x 5 wait strategies: keep the quick tier quick
+                for x in t.iter_mut() {
+                    x.c = x.c.min(3);
+                    if x.scn.name.starts_with("c08-iter") {
+                        // long executions (two retried sends, drain to the end)
+                        x.c = 2;
+                    }
+                }
             }
         }
         "C10" => {
@@ -1428,8 +1564,10 @@ pub fn tasks(prop: &str, tier: Tier) -> Vec<Task> {
         "C17" => {
             // memory after teardown of concurrent executions with handle churn
             push_all(&mut t, c16_scenarios(&[1]), thorough);
-            push_all(&mut t, c12_scenarios(ns_q), thorough);
-            push_all(&mut t, c05_scenarios(&[1]), thorough);
+            push_all(&mut t, c12_scenarios(if thorough { ns_q } else { &[1] }), thorough);
+            if thorough {
+                push_all(&mut t, c05_scenarios(&[1]), thorough);
+            }
         }
         "C18" => {
             push_all(&mut t, c18_scenarios(ns), thorough);
